@@ -102,8 +102,11 @@ class Report:
         """Run another property's rule under this property's id: the invariant it decides is one this property relies on."""
         real = self.rule
 
+        n = [0]
+
         def renamed(rid, desc, floor=0):
-            return real(as_id, f"{why} [= {rid}: {desc}]", floor)
+            n[0] += 1
+            return real(as_id if n[0] == 1 else f"{as_id}{chr(ord('a') + n[0] - 1)}", f"{why} [= {rid}: {desc}]", floor)
         self.rule = renamed
         try:
             self.guard(rule_fn, ctx)
